@@ -198,50 +198,17 @@ struct Obs {
     typed_anomaly: Option<String>,
 }
 
-/// Name + tag invariant for one stored variant. `q` is the declared qualifier char if known.
+/// Value-level invariant for one stored variant: whatever the internal tag, the value must be one the
+/// declared type can hold. `q` is the declared qualifier char if known.
 fn check_typed(name: &str, q: Option<char>, v: &Variant, udt: &UserDefinedTypes) -> Option<String> {
+    let num: Option<f64> = match v {
+        Variant::VInteger(i) => Some(*i as f64),
+        Variant::VLong(l) => Some(*l as f64),
+        Variant::VSingle(f) => Some(*f as f64),
+        Variant::VDouble(d) => Some(*d),
+        _ => None,
+    };
     match v {
-        Variant::VInteger(i) => {
-            if let Some(q) = q {
-                if q != '%' {
-                    return Some(format!("{} declared {} holds INTEGER {}", name, q, i));
-                }
-            }
-            if *i < -32768 || *i > 32767 {
-                return Some(format!("{} holds INTEGER out of range: {}", name, i));
-            }
-            None
-        }
-        Variant::VLong(l) => {
-            if let Some(q) = q {
-                if q != '&' {
-                    return Some(format!("{} declared {} holds LONG {}", name, q, l));
-                }
-            }
-            None
-        }
-        Variant::VSingle(f) => {
-            if let Some(q) = q {
-                if q != '!' {
-                    return Some(format!("{} declared {} holds SINGLE {}", name, q, f));
-                }
-            }
-            if !f.is_finite() {
-                return Some(format!("{} holds non-finite SINGLE {}", name, f));
-            }
-            None
-        }
-        Variant::VDouble(f) => {
-            if let Some(q) = q {
-                if q != '#' {
-                    return Some(format!("{} declared {} holds DOUBLE {}", name, q, f));
-                }
-            }
-            if !f.is_finite() {
-                return Some(format!("{} holds non-finite DOUBLE {}", name, f));
-            }
-            None
-        }
         Variant::VString(_) => {
             if let Some(q) = q {
                 if q != '$' {
@@ -262,13 +229,44 @@ fn check_typed(name: &str, q: Option<char>, v: &Variant, udt: &UserDefinedTypes)
             None
         }
         Variant::VUserDefined(u) => {
-            // field types are not recoverable without the type name; check range/finite only
             for fname in u.names() {
                 if let Some(fv) = u.get(fname) {
                     if let Some(a) = check_typed(&format!("{}.{}", name, fname), None, fv, udt) {
                         return Some(a);
                     }
                 }
+            }
+            None
+        }
+        _ => {
+            let x = num.unwrap();
+            // the tag's own range first
+            match v {
+                Variant::VInteger(i) if *i < -32768 || *i > 32767 => return Some(format!("{} holds an INTEGER-tagged value out of range: {}", name, i)),
+                Variant::VLong(l) if *l < -2147483648 || *l > 2147483647 => return Some(format!("{} holds a LONG-tagged value out of range: {}", name, l)),
+                _ => {}
+            }
+            if !x.is_finite() {
+                return Some(format!("{} holds a non-finite number {}", name, x));
+            }
+            match q {
+                Some('%') => {
+                    if x.fract() != 0.0 || !(-32768.0..=32767.0).contains(&x) {
+                        return Some(format!("{} (INTEGER) holds {}", name, x));
+                    }
+                }
+                Some('&') => {
+                    if x.fract() != 0.0 || !(-2147483648.0..=2147483647.0).contains(&x) {
+                        return Some(format!("{} (LONG) holds {}", name, x));
+                    }
+                }
+                Some('!') => {
+                    if ((x as f32) as f64) != x {
+                        return Some(format!("{} (SINGLE) holds {} which is not a single-precision value", name, x));
+                    }
+                }
+                Some('$') => return Some(format!("{} (STRING) holds the number {}", name, x)),
+                _ => {}
             }
             None
         }
